@@ -783,7 +783,7 @@ def gen_mix_program(rng, path, nprocs, fmt=None, hints='-', focus=None):
             regs = more
         owner = [rng.below(nprocs) for _ in regs]
         mt = rng.choice(MT_FOR[v.xt])
-        mode = rng.choice(['varn', 'varn', 'iput', 'iput', 'bput', 'mixed'] + (['varn'] * 6 if focus == 'recvarn' else []))
+        mode = rng.choice(['varn', 'varn', 'nbvarn', 'iput', 'iput', 'bput', 'mixed'] + (['varn'] * 4 + ['nbvarn'] * 2 if focus == 'recvarn' else []))
         ncell = 1
         for n_ in shape:
             ncell *= n_
@@ -820,15 +820,18 @@ def gen_mix_program(rng, path, nprocs, fmt=None, hints='-', focus=None):
                 p.all('detach')
             regs, owner = [], []
             p.tags.add('mix-burst-%s' % kind)
-        elif mode == 'varn':
+        elif mode in ('varn', 'nbvarn'):
             texts = {}
+            nbkind = rng.choice(['iput', 'bput']) if mode == 'nbvarn' else None
+            if nbkind == 'bput':
+                p.all('attach 65536')
             for r in range(nprocs):
                 mine = [regs[i] for i in range(len(regs)) if owner[i] == r]
                 segs = []
                 for st, ct, sd in mine:
                     segs += unit_segments(st, ct, sd)
                 if not segs:
-                    if coll:
+                    if coll and not nbkind:
                         texts[r] = zero_varn(v, mt, 'put')
                     continue
                 segs.sort()
@@ -837,11 +840,25 @@ def gen_mix_program(rng, path, nprocs, fmt=None, hints='-', focus=None):
                 for o in order:
                     s, c = segs[o]
                     vals += [cellvals[x] for x in region_cells(s, c, [1] * len(s))]
-                texts[r] = 'put varn %s %s %s %s %s %s - - : %s' % ('c' if coll else 'i', v.name, mt, rng.choice(['c', 'c', 'v2']),
-                                                                   '|'.join(lst(segs[o][0]) for o in order), '|'.join(lst(segs[o][1]) for o in order),
-                                                                   ' '.join(map(str, vals)))
-                p.tags.add('mix-varn-%dseg' % min(len(segs), 8))
+                if nbkind:
+                    # the same list of segments as ONE nonblocking varn request (iput_varn / bput_varn), completed below
+                    reqn += 1
+                    texts[r] = '%s q%d varn %s %s %s %s %s - - : %s' % (nbkind, reqn, v.name, mt, 'c' if nbkind == 'bput' else rng.choice(['c', 'c', 'v2']),
+                                                                      '|'.join(lst(segs[o][0]) for o in order), '|'.join(lst(segs[o][1]) for o in order),
+                                                                      ' '.join(map(str, vals)))
+                    p.tags.add('mix-nbvarn-%s' % nbkind)
+                else:
+                    texts[r] = 'put varn %s %s %s %s %s %s - - : %s' % ('c' if coll else 'i', v.name, mt, rng.choice(['c', 'c', 'v2']),
+                                                                       '|'.join(lst(segs[o][0]) for o in order), '|'.join(lst(segs[o][1]) for o in order),
+                                                                       ' '.join(map(str, vals)))
+                    p.tags.add('mix-varn-%dseg' % min(len(segs), 8))
             p.per_rank(texts)
+            if nbkind:
+                p.all('inq_nreqs')
+                p.all('waitall %s %s' % ('c' if coll else 'i', rng.choice(['ALL', 'PUT'])))
+                p.all('inq_nreqs')
+                if nbkind == 'bput':
+                    p.all('detach')
         else:
             use_b = mode in ('bput', 'mixed')
             if use_b:
@@ -906,11 +923,11 @@ def gen_mix_program(rng, path, nprocs, fmt=None, hints='-', focus=None):
         rregs = lattice_regions(rng, shape) or [rand_region(rng, shape)]
         rowner = [rng.below(nprocs) for _ in rregs]
         rcoll = rng.chance(1, 2)
-        rmode = rng.choice(['iget', 'iget', 'varn'])
+        rmode = rng.choice(['iget', 'iget', 'varn', 'ivarn'])
         wr = written.get(v.name, set())
         if not rcoll:
             p.all('begin_indep')
-        if rmode == 'varn':
+        if rmode in ('varn', 'ivarn'):
             texts = {}
             for r in range(nprocs):
                 mine = [rregs[i] for i in range(len(rregs)) if rowner[i] == r]
@@ -920,15 +937,23 @@ def gen_mix_program(rng, path, nprocs, fmt=None, hints='-', focus=None):
                 allw = all(c in wr for st, ct, sd in mine for c in region_cells(st, ct, sd))
                 rmt = rng.choice(MT_FOR[v.xt]) if allw else NATIVE[v.xt]
                 if not segs:
-                    if rcoll:
+                    if rcoll and rmode == 'varn':
                         texts[r] = zero_varn(v, rmt, 'get')
                     continue
                 segs.sort()
                 order = near_sorted_perm(rng, len(segs))
-                texts[r] = 'get varn %s %s %s %s %s %s - -' % ('c' if rcoll else 'i', v.name, rmt, rng.choice(['c', 'c', 'v2']),
-                                                             '|'.join(lst(segs[o][0]) for o in order), '|'.join(lst(segs[o][1]) for o in order))
-                p.tags.add('mix-getvarn-%dseg' % min(len(segs), 8))
+                if rmode == 'ivarn':
+                    reqn += 1
+                    texts[r] = 'iget g%d varn %s %s %s %s %s - -' % (reqn, v.name, rmt, rng.choice(['c', 'c', 'v2']),
+                                                                   '|'.join(lst(segs[o][0]) for o in order), '|'.join(lst(segs[o][1]) for o in order))
+                    p.tags.add('mix-igetvarn')
+                else:
+                    texts[r] = 'get varn %s %s %s %s %s %s - -' % ('c' if rcoll else 'i', v.name, rmt, rng.choice(['c', 'c', 'v2']),
+                                                                 '|'.join(lst(segs[o][0]) for o in order), '|'.join(lst(segs[o][1]) for o in order))
+                    p.tags.add('mix-getvarn-%dseg' % min(len(segs), 8))
             p.per_rank(texts)
+            if rmode == 'ivarn':
+                p.all('waitall %s %s' % ('c' if rcoll else 'i', rng.choice(['ALL', 'GET'])))
         else:
             names = {r: [] for r in range(nprocs)}
             maxq = max([rowner.count(r) for r in range(nprocs)] + [0])
